@@ -7,7 +7,7 @@ from vf import clist, cbool, copt
 
 ID = 'C18'
 COQ_DIR = 'C18'
-COQ_HEADER = ('From Coq Require Import ZArith.\nFrom V Require Import Common.Num C18.Model.\n'
+COQ_HEADER = ('From Coq Require Import ZArith Uint63.\nFrom V Require Import Common.Num C18.Model.\n'
               'Close Scope Q_scope.\nOpen Scope nat_scope.')
 RULE = ('a case = a universe (3-5 real AbstractUnit subclasses with fixed and variable port counts, 5-8 AbstractStreams) and one or '
         'more operation histories; random histories have 5-50 operations drawn by a stateful generator that looks at the real objects '
@@ -301,7 +301,7 @@ def exec_history(case, ops, per_step=None):
                 if stop: return recs, stop
     return recs, None
 
-HP = 2305843009213693951
+HP = 2 ** 63
 HB = 1000003
 ECODE = {None: 0, 'EIndex': 1, 'EValue': 2, 'EType': 3, 'ERuntime': 4, 'EOther': 5}
 def hmix(h, x): return (h * HB + x + 1) % HP
@@ -409,14 +409,14 @@ def cobs(o):
     streams = clist(o['streams'], lambda p: f'({copt(p[0])}, {copt(p[1])})')
     return f'({units}, {streams})'
 
-STEP = 'step_found'     # 'step_found' = the tree before pending_fixes/C18_1_pop_undock.diff
+STEP = 'step'     # 'step_found' = the tree before pending_fixes/C18_1_pop_undock.diff
 
 def coq_case(case, out):
     w0 = f'run (empty_world {case["ns"]}) {clist(setup_ops(case), cop)}'
     if 'histories' not in case:
         return (f'(check_enum {STEP} (run ({w0}) {clist(case["prefix"], cop)}) {clist(case["alphabet"], cop)} '
-                f'{case["depth"]} ({out["sum"]})%Z)')
-    terms = [f'check_hist {STEP} w0 {clist(ops, cop)} {clist(r["cmps"], cbool)} ({r["hash"]})%Z {cobs(r["final"])}'
+                f'{case["depth"]} ({out["sum"]})%uint63)')
+    terms = [f'check_hist {STEP} w0 {clist(ops, cop)} {clist(r["cmps"], cbool)} ({r["hash"]})%uint63 {cobs(r["final"])}'
              for ops, r in zip(case['histories'], out['h'])]
     return f'(let w0 := {w0} in ' + (' && '.join(terms) if terms else 'true') + ')'
 
@@ -696,7 +696,7 @@ def exhaustive_cases(rng, depth, nprefix, A=None, empty_prefix=True):
 def gen_cases(rng, tier):
     env()
     cases = []
-    n = 260 if tier == 'quick' else 3000
+    n = 300 if tier == 'quick' else 4000
     for k in range(n):
         nu = rng.randint(3, 5); ns = rng.randint(5, 8)
         units = gen_universe(rng, nu)
@@ -706,9 +706,10 @@ def gen_cases(rng, tier):
     A = alphabet(EXH_UNITS, 5)
     small = A[::3]
     if tier == 'quick':
-        cases += exhaustive_cases(rng, 1, 8) + exhaustive_cases(rng, 2, 1, small)
+        cases += exhaustive_cases(rng, 1, 12) + exhaustive_cases(rng, 2, 3) + exhaustive_cases(rng, 3, 1, small, empty_prefix=False)
     else:
-        cases += exhaustive_cases(rng, 1, 40) + exhaustive_cases(rng, 2, 6) + exhaustive_cases(rng, 3, 2, small)
+        cases += (exhaustive_cases(rng, 1, 60) + exhaustive_cases(rng, 2, 30) + exhaustive_cases(rng, 3, 0)
+                  + exhaustive_cases(rng, 3, 8, small, empty_prefix=False) + exhaustive_cases(rng, 4, 1, small))
     return cases
 
 def search_cases(rng, tier):
